@@ -17,7 +17,8 @@ def validate(ctx, module, cfg, traces, *, timeout=900, tag=''):
     if not traces:
         return {}, {}
     n = len(traces)
-    per = max(1, (n + NCPU - 1) // NCPU)
+    nchunks = max(1, min(NCPU, n // 120))     # a JVM start costs about as much as 100 small traces
+    per = max(1, (n + nchunks - 1) // nchunks)
     chunks = [traces[i:i + per] for i in range(0, n, per)]
 
     def one(ix_chunk):
